@@ -261,8 +261,7 @@ def r6_views(run, tree):
     fi = tree.method(vi, "__getitem__")
     from .vector_rules import check_component_map
     check_component_map(run, tree, fi, VECTOR + ".__getitem__", lambda elt, var, pn: isinstance(elt, ast.Subscript) and
-                        is_name(elt.value, var) and is_name(elt.slice, pn[1]), "v[idx] indexes every component with idx",
-                        need_name=True)
+                        is_name(elt.value, var) and is_name(elt.slice, pn[1]), "v[idx] indexes every component with idx")
 
 
 RULES = [r1_inplace_twins, r2_out, r3_rhs_not_written, r4_deep_copies, r5_shallow_container_copies, r6_views]
